@@ -14,10 +14,10 @@ from ..core.explorer import Ctx, explore
 
 PROPERTY = "C11"
 LEVEL = "fault_enumeration"
-RULE = ("histories H1 (serial sweep of 3 designs), H2 (NSGA-II N=2, G=2: evaluate-time sync, per-generation re-sync, final sync_all), H3 "
+RULE = ("histories H1 (serial sweep of 3 designs), H2 (NSGA-II N=2, G=2: evaluate-time sync, per-generation re-sync, final sync_all), H4 (serial sweep in which one design fails transiently twice and is re-sampled), H3 "
         "(sweep of 2 designs on 2 workers, every schedule with <=1 (thorough 2) pre-emptions): the writer process is killed (os._exit, no "
         "clean-up) at EVERY event index (objective entry/exit, before/after each connect / execute / commit); thorough additionally SIGKILL "
-        "immediately before EVERY file-mutating system call (pwrite64, unlink, ftruncate, fsync, ...) of H1 and H2. After each death the "
+        "immediately before EVERY file-mutating system call (pwrite64, unlink, ftruncate, fsync, ...) of H1, H2 and H4. After each death the "
         "file is reopened by ProblemViewDataStore and plain sqlite3: view opens, integrity_check ok, every acknowledged id has a row, "
         "every row is complete JSON whose costs are [] or exactly f(vector) with matching signed costs. Crashes before the store's creation "
         "has committed are counted as pre_creation and not judged. Non-trivial = crash point after creation; distinct = distinct "
@@ -46,7 +46,13 @@ def run_history(name, db, ack_fd, on_point, ctx=None, seed=0):
     reset_ids()
     holder = {"sched": None}
 
+    calls = {"n": 0}
+
     def before(problem, individual):
+        calls["n"] += 1
+        if name == "H4" and calls["n"] in (2, 3):          # the second design fails twice, transiently
+            on_point("obj:enter")
+            raise (TimeoutError if calls["n"] == 2 else RuntimeError)("transient")
         s = holder.get("sched_holder", {}).get("sched") if holder.get("sched_holder") else None
         if s is not None:
             s.point("obj:enter")
@@ -77,13 +83,16 @@ def run_history(name, db, ack_fd, on_point, ctx=None, seed=0):
         store.sync_individual, store.sync_all = si, sa
         problem.data_store = store
         os.write(ack_fd, b"C\n")            # the store has been created (constructor returned)
-    if name in ("H1", "H2"):
+    if name in ("H1", "H2", "H4"):
         hooks = Hooks(None, on_point=on_point, zero_timeout=False)
         with sql_proxy(hooks):
             attach(SqliteDataStore(problem, database_name=db))
             if hasattr(on_point, "mark"):
                 on_point.mark("created")
-            if name == "H1":
+            if name in ("H1", "H4"):
+                if name == "H4":
+                    sh = shim_mod.install()
+                    sh.reset(77 + seed, None)
                 from artap.algorithm_sweep import SweepAlgorithm
                 from artap.operators import CustomGenerator
                 gen = CustomGenerator(problem.parameters)
@@ -329,13 +338,13 @@ def replay(sub, case):
 
 def run(tier, seed):
     import artap.algorithm_sweep, artap.algorithm_NSGAII, artap.datastore  # noqa: F401,E401
-    shards = [("event", "H1", seed), ("event", "H2", seed)]
+    shards = [("event", "H1", seed), ("event", "H2", seed), ("event", "H4", seed)]
     scheds = h3_schedules(2 if tier == "thorough" else 1)
     shards += [("h3", tuple(s), seed) for s in scheds]
     extra = {"h3_schedules": len(scheds)}
     if tier == "thorough":
         if crash.strace_available():
-            for name in ("H1", "H2"):
+            for name in ("H1", "H2", "H4"):
                 db, ack = paths("%s-count" % name)
                 rc, counts = crash.strace_writer([name, str(seed), db], when=None)
                 if rc != 0 or not counts:
